@@ -207,10 +207,14 @@ func decodeMsg(codec string, desc protoreflect.MessageDescriptor, data []byte) (
 // identify returns the 1-based index of the dictionary message equal to the
 // decoded payload, 0 when it decodes but equals none ("ALIEN"), -1 when it
 // does not decode.
-func identify(codec string, desc protoreflect.MessageDescriptor, data []byte, dict []proto.Message) int {
+func identify(codec string, desc protoreflect.MessageDescriptor, data []byte, dict []proto.Message, hint int) int {
 	m, err := decodeMsg(codec, desc, data)
 	if err != nil {
 		return -1
+	}
+	// equal messages can occur twice in a dictionary (two empty messages): prefer the expected one
+	if hint >= 1 && hint <= len(dict) && dict[hint-1] != nil && dict[hint-1].ProtoReflect().Descriptor() == desc && proto.Equal(m, dict[hint-1]) {
+		return hint
 	}
 	for i, d := range dict {
 		if d != nil && d.ProtoReflect().Descriptor() == desc && proto.Equal(m, d) {
